@@ -388,7 +388,11 @@ func (st SStep) Coq(o SObs) string {
 			if kind == "OTHER" {
 				kind = "OTHERKIND"
 			}
-			ops = append(ops, fmt.Sprintf("mk_hop %d %d %s %s (%s) %s %s", op.ID, op.NI, kind, el, op.EntryCoq(), CoqNs(fails), CoqNs(oks)))
+			ni := op.NI
+			if op.RawNI != "" {
+				ni = 4
+			}
+			ops = append(ops, fmt.Sprintf("mk_hop %d %d %s %s (%s) %s %s", op.ID, ni, kind, el, op.EntryCoq(), CoqNs(fails), CoqNs(oks)))
 		}
 		return fmt.Sprintf("SIn (Msg _ %d (MOps _ %s))", st.S, CoqList(ops))
 	case "close":
